@@ -18,6 +18,8 @@ func extraEngines(args []string) bool {
 		scatterEngine()
 	case "gob":
 		gobEngine()
+	case "dkg":
+		dkgEngine(args[1])
 	case "imp":
 		// dh imp <workdir> <dirk binary>
 		impEngine(args[1], args[2])
